@@ -73,3 +73,50 @@ Proof.
       injection Ha as <-. apply Forall_app. split; [eapply scrub_walk_sound; exact Hx|apply IHr; exact Hr]. }
   apply Forall_forall. intros p Hp. apply B in Hp. destruct Hp as [[]|Hp]. rewrite Forall_forall in Hall. apply Hall. exact Hp.
 Qed.
+
+(* ---------- completeness: every step's insertion point is a candidate ---------- *)
+Definition ipoint_of (s : pstep) : list string := match s with PStep _ _ ip _ _ => ip end.
+Definition thens_of (s : pstep) : list pstep := match s with PStep _ _ _ _ t => t end.
+
+(* c is s or a step below s *)
+Inductive substep (c : pstep) : pstep -> Prop :=
+| sub_self : substep c c
+| sub_below s x : In x (thens_of s) -> substep c x -> substep c s.
+
+Lemma scrub_walk_covers : forall fuel client s ps,
+  scrub_walk fuel client s = Ok ps ->
+  forall c target, substep c s -> ipoint_of c <> [] ->
+    descend (ipoint_of c) client = Ok target -> natural_id target = false -> In (ipoint_of c) ps.
+Proof.
+  induction fuel as [|fuel IH]; intros client s ps H c target Hsub Hne Hd Hn; [discriminate|].
+  destruct s as [loc ptype ipoint sels thens]. cbn [scrub_walk] in H.
+  apply bind_ok_inv in H. destruct H as [tgt [Ht H]]. apply bind_ok_inv in H. destruct H as [below [Hb H]].
+  injection H as <-. inversion Hsub as [|? x Hx Hcx]; subst.
+  - (* the step itself *)
+    cbn [ipoint_of] in *. rewrite Hd in Ht. injection Ht as <-. rewrite Hn. cbn [negb andb].
+    destruct ipoint as [|p0 r0]; [congruence|]. cbn [negb]. apply in_or_app. left. left. reflexivity.
+  - (* a step below one of the dependents *)
+    apply in_or_app. right. cbn [thens_of] in Hx. clear Ht Hsub.
+    revert below Hb. induction thens as [|y r IHr]; intros below Hb; [destruct Hx|].
+    apply bind_ok_inv in Hb. destruct Hb as [a [Ha Hb]]. apply bind_ok_inv in Hb. destruct Hb as [b [Hb' Hb]].
+    injection Hb as <-. apply in_or_app. destruct Hx as [<-|Hx].
+    + left. exact (IH client y a Ha c target Hcx Hne Hd Hn).
+    + right. exact (IHr Hx b Hb').
+Qed.
+
+(* no injected id is forgotten: the insertion point of every step of the plan below the root steps'
+   level is scrubbed, unless the client asked for the key id there *)
+Theorem scrub_fields_complete fuel client root ps :
+  scrub_fields fuel client root = Ok ps ->
+  forall x c target, In x (thens_of root) -> substep c x -> ipoint_of c <> [] ->
+    descend (ipoint_of c) client = Ok target -> natural_id target = false -> In (ipoint_of c) ps.
+Proof.
+  destruct root as [loc ptype ipoint sels thens]. unfold scrub_fields. cbn [thens_of].
+  intros H x c target Hx Hsub Hne Hd Hn. apply bind_ok_inv in H. destruct H as [all [Ha H]]. injection H as <-.
+  destruct (dedupe_spec all [] (NoDup_nil _)) as [_ B]. apply B. right. clear B.
+  revert all Ha. induction thens as [|y r IHr]; intros all Ha; [destruct Hx|].
+  apply bind_ok_inv in Ha. destruct Ha as [a [Hy Ha]]. apply bind_ok_inv in Ha. destruct Ha as [b [Hr Ha]].
+  injection Ha as <-. apply in_or_app. destruct Hx as [<-|Hx].
+  - left. exact (scrub_walk_covers fuel client y a Hy c target Hsub Hne Hd Hn).
+  - right. exact (IHr Hx b Hr).
+Qed.
